@@ -1133,7 +1133,7 @@ class Engine:
                 out = inh
         seen_ids = set()
         # the dump can contain a const-eval and a runtime copy of a const fn under the same name: identical bodies
-        out = [f for f in out if not ((f.name, f.crate, len(f.args)) in seen_ids or seen_ids.add((f.name, f.crate, len(f.args))))]
+        out = [f for f in out if not ((f.name, f.crate, tuple(t for (_, t) in f.args), f.ret) in seen_ids or seen_ids.add((f.name, f.crate, tuple(t for (_, t) in f.args), f.ret)))]
         self.resolve_cache[key] = out
         return out
 
@@ -1200,6 +1200,21 @@ class Engine:
             if vt:
                 h = type_head(vt)
                 pick = [f for f in fns if f.impl_loc and (srcindex.impl_info(*f.impl_loc) or {}).get('self') == h]
+                if pick:
+                    fns = pick
+        # conversion traits name their argument type: From<X>::from(x: X), TryFrom<X>::try_from(x: X), PartialEq<X>::eq(&self, &X)
+        tf = getattr(call.callee, 'trait_full', None) or ''
+        if len(fns) > 1 and '<' in tf:
+            targ = type_args(tf)
+            if targ:
+                want = strip_refs(targ[0]).replace(' ', '')
+                idx = 0 if call.callee.trait in ('From', 'TryFrom', 'Into') else 1
+                def _same(f):
+                    if len(f.args) <= idx:
+                        return False
+                    have = strip_refs(f.args[idx][1]).replace(' ', '')
+                    return have == want or have.split('::')[-1] == want.split('::')[-1]
+                pick = [f for f in fns if _same(f)]
                 if pick:
                     fns = pick
         # by declared type head of the first argument
